@@ -34,6 +34,7 @@
    ([core_with_orig]) and the repaired one ([core_with]) share every other definition.       *)
 From Coq Require Import ZArith List Bool.
 From GT Require Import Base.LogConc.
+From GT Require Import Base.LogConcCfg.
 Import ListNotations.
 Local Open Scope Z_scope.
 
@@ -59,6 +60,17 @@ Definition check (c : core) (l : level) : list core := if enabled c l then [c] e
    the list of entries (each its field list) captured for one log call without call fields *)
 Definition emit (c : core) (l : level) : list (list field) :=
   if enabled c l then map (fun k => write k []) (check c l) else [].
+
+(* Sync: the wrapper has none of its own, the embedded core's is promoted - it reaches the
+   innermost (real) core, as Write does *)
+Fixpoint sink (c : core) : core :=
+  match c with Base _ _ => c | Wrap c' _ => sink c' end.
+
+(* customLevelCoreWrapper.Level() / zapcore.LevelOf of an ioCore or observer core *)
+Definition core_level (c : core) : level := match c with Base m _ => m | Wrap _ m => m end.
+
+(* SetLevel after SetLevel after ...: one wrapper per call, the latest outermost *)
+Definition wrap_all (c : core) (ms : list level) : core := fold_left Wrap ms c.
 
 Fixpoint core_with (c : core) (fs : list field) : core :=
   match c with
@@ -219,46 +231,88 @@ Fixpoint srun_obs (st : sstate) (ops : list op) : list (list (list (list (list f
              | o :: rest => srun_obs (sstep st o) rest
              end.
 
-(* ---- concurrent part: WithFields / SetLevel on contexts sharing one holder ---- *)
-Inductive cop := CWith (fs : list field) | CSetLevel (l : level).
-Inductive fn := FWith | FLevel.          (* logger.With(fields...) | CustomLevelLogger(logger, level) *)
+(* ---- concurrent part: WithFields / SetLevel / ChildLogger on contexts sharing one holder ---- *)
+(* CChild fs: ChildLogger(ctx, fs...) - one Load of the shared holder; the derived logger goes
+   into a FRESH holder, the shared one is only read *)
+Inductive cop := CWith (fs : list field) | CSetLevel (l : level) | CChild (fs : list field).
+(* logger.With(fields...) | CustomLevelLogger(logger, level) | nothing (read-only) *)
+Inductive fn := FWith | FLevel | FRead.
 
-Definition cop_fields (o : cop) : list field := match o with CWith fs => fs | CSetLevel _ => [] end.
-Definition cop_level (o : cop) : level := match o with CWith _ => 0 | CSetLevel l => l end.
+(* what an operation adds to / sets on the SHARED logger *)
+Definition cop_fields (o : cop) : list field := match o with CWith fs => fs | _ => [] end.
+Definition cop_level (o : cop) : level := match o with CSetLevel l => l | _ => 0 end.
+Definition cop_is_read (o : cop) : bool := match o with CChild _ => true | _ => false end.
 
 Definition cpure (cw : core -> list field -> core) (f : fn) (o : cop) (c : core) : core :=
   match f with
   | FWith => logger_with cw c (cop_fields o)
   | FLevel => custom_level c (cop_level o)
+  | FRead => c
   end.
 Definition cident (f : fn) (o : cop) : bool :=
-  match f with FWith => is_nil (cop_fields o) | FLevel => false end.
+  match f with FWith => is_nil (cop_fields o) | FLevel => false | FRead => true end.
 
-(* the shared-memory programs of the two functions; regenerated from log/context_utils.go by
-   harness/cmd/xlate_logconc and compared with these by eq_refl on every check *)
+(* the shared-memory programs of the three functions.  The translator (harness/cmd/
+   xlate_logconc) regenerates control-flow graphs of the atomic operations of WithFields,
+   SetLevel and ChildLogger from log/context_utils.go on every check; they are compared with
+   these programs by a bisimulation check that is proved sound (Base/LogConcCfgProofs.v) *)
 Definition prog_withfields : list (instr fn) := [ILoad; ICas FWith 0].
 Definition prog_setlevel : list (instr fn) := [ILoad; ICas FLevel 0].
+Definition prog_child : list (instr fn) := [IRead].
 Definition prog_withfields_orig : list (instr fn) := [ILoad; IStore FWith].
 Definition prog_setlevel_orig : list (instr fn) := [ILoad; IStore FLevel].
 
-Definition cfn (o : cop) : fn := match o with CWith _ => FWith | CSetLevel _ => FLevel end.
+Definition cfn (o : cop) : fn := match o with CWith _ => FWith | CSetLevel _ => FLevel | CChild _ => FRead end.
 Definition cprog (o : cop) : list (instr fn) :=
-  match o with CWith _ => prog_withfields | CSetLevel _ => prog_setlevel end.
+  match o with CWith _ => prog_withfields | CSetLevel _ => prog_setlevel | CChild _ => prog_child end.
 Definition cprog_orig (o : cop) : list (instr fn) :=
-  match o with CWith _ => prog_withfields_orig | CSetLevel _ => prog_setlevel_orig end.
+  match o with CWith _ => prog_withfields_orig | CSetLevel _ => prog_setlevel_orig | CChild _ => prog_child end.
 
 (* repaired code *)
 Definition crun := LogConc.run cop core fn (cpure core_with) cident cprog.
 Definition crun_obs := LogConc.run_obs cop core fn (cpure core_with) cident cprog.
+Definition crun_vals := LogConc.run_vals cop core fn (cpure core_with) cident cprog.
 (* pinned code: Load; Store, and the With that drops the wrapper *)
 Definition crun_orig := LogConc.run cop core fn (cpure core_with_orig) cident cprog_orig.
 (* generic in both, for judging an arbitrary tree *)
 Definition cinit (c0 : core) (progs : list (list cop)) := LogConc.init_state cop core c0 progs.
 
-(* sequential meaning of one concurrent operation on the abstract logger *)
+(* the loggers of the children created during a run, in the order of their creation (the
+   order of the Loads): (goroutine, position of the ChildLogger call in its program), logger *)
+Fixpoint children_from (pre : list (nat * cop)) (evs : list ((nat * cop) * core))
+  : list ((nat * nat) * core) :=
+  match evs with
+  | [] => []
+  | (to, seen) :: rest =>
+      match snd to with
+      | CChild fs => [((fst to, length (ops_of cop (fst to) pre)), logger_with core_with seen fs)]
+      | _ => []
+      end ++ children_from (pre ++ [to]) rest
+  end.
+Definition crun_children (st0 : mstate cop core) (sched : list nat) : list ((nat * nat) * core) :=
+  children_from [] (combine (snd (crun st0 sched)) (crun_vals st0 sched)).
+
+(* sequential meaning of one concurrent operation on the abstract SHARED logger *)
 Definition sapply (x : slog) (o : cop) : slog :=
-  match o with CWith fs => add_fields fs x | CSetLevel l => set_level l x end.
+  match o with CWith fs => add_fields fs x | CSetLevel l => set_level l x | CChild _ => x end.
 
 (* the level after the operations in linearisation order: that of the last SetLevel *)
 Definition lin_level (tr : list cop) (l0 : level) : level :=
-  fold_left (fun l o => match o with CSetLevel l' => l' | CWith _ => l end) tr l0.
+  fold_left (fun l o => match o with CSetLevel l' => l' | _ => l end) tr l0.
+
+(* ---- the graphs the translator regenerates from the source (Base/LogConcCfg.v) ---- *)
+Definition fn_eqb (f g : fn) : bool :=
+  match f, g with FWith, FWith | FLevel, FLevel | FRead, FRead => true | _, _ => false end.
+
+(* the hand-written programs as graphs *)
+Definition hand_graph (o : cop) : list (ginstr fn) := embed fn (cprog o).
+
+(* the machine running per-operation graphs [gp] (the regenerated ones) *)
+Definition gcrun (gp : cop -> list (ginstr fn)) := grun cop core fn (cpure core_with) cident gp.
+Definition gcrun_obs (gp : cop -> list (ginstr fn)) := grun_obs cop core fn (cpure core_with) cident gp.
+
+(* what ./check C18 evaluates on the regenerated graphs: bisimilar to the hand-written programs *)
+Definition tie_ok (gp : cop -> list (ginstr fn)) : bool :=
+  prog_equiv fn fn_eqb (gp (CWith [])) (hand_graph (CWith []))
+  && prog_equiv fn fn_eqb (gp (CSetLevel 0)) (hand_graph (CSetLevel 0))
+  && prog_equiv fn fn_eqb (gp (CChild [])) (hand_graph (CChild [])).
